@@ -5,6 +5,12 @@ import PraatModel.Audio
 
 Everything is about the model `PraatModel/Audio.lean`; times are exact rationals `num/den`,
 samples unbounded `Int`s restricted by `InRange`, recordings of any length.
+
+The time-level theorems (section 4) hold for ALL rational times: a time outside the recording addresses its first / last
+sample boundary (defect C16-2, /repo 300c9d2: `sampleIndex_nearest`, `sampleIndex_nonpos`, `sampleIndex_beyond`), and a
+time range that ends before it starts is rejected with `ArgumentError` (defect C16-3, /repo 0a07868: `reversed_rejected`,
+`query_reversed_rejected`).  No window hypothesis (`0 ≤ t ≤ duration`) is left; `¬ e < s` in a statement is the condition
+under which the call returns, its complement being `reversed_rejected`.
 -/
 open Audio
 namespace C16
@@ -320,20 +326,43 @@ theorem convert_bytes_roundtrip (w : Nat) (hk : knownWidth w = true) (bs : List 
     unfold convertToBytes; simp [hk, hall, unpack_pack w hw bs ⟨k, hkk⟩]
   rw [h1]; exact h2
 
-/-! ## 3. time → index: always on a sample boundary, and the nearest one -/
+/-! ## 3. time → index: always on a sample boundary, the nearest one, inside the recording -/
 
-/-- **the byte index of every time is a whole number of samples** — for all `t`, `rate`, `width`
+theorem clampSample_le (i : Int) (n : Nat) : clampSample i n ≤ n := Nat.min_le_right _ _
+
+theorem clampSample_of_range (i : Int) (n : Nat) (h0 : 0 ≤ i) (h1 : i ≤ n) : ((clampSample i n : Nat) : Int) = i := by
+  unfold clampSample; omega
+
+/-- `clampSample i n = min(max(i, 0), n)` -/
+theorem clampSample_eq (i : Int) (n : Nat) : ((clampSample i n : Nat) : Int) = min (max i 0) n := by
+  unfold clampSample; omega
+
+theorem clampSample_nonpos (i : Int) (n : Nat) (h : i ≤ 0) : clampSample i n = 0 := by
+  unfold clampSample; omega
+
+theorem clampSample_beyond (i : Int) (n : Nat) (h : (n : Int) ≤ i) : clampSample i n = n := by
+  unfold clampSample; omega
+
+/-- the byte index is the clamped sample index times the width -/
+theorem index_cast (wv : Wav) (t : QTime) : wv.index t = ((wv.sampleIndex t * wv.width : Nat) : Int) := rfl
+
+/-- **the byte index of every time is a whole number of samples** — for all `t`, `rate`, `width`, recordings
 (this is what `round(t*rate) * width` bought over `round(t*rate*width)`) -/
-theorem index_aligned (t : QTime) (rate w : Nat) : (w : Int) ∣ indexAtTime t rate w :=
-  Int.dvd_mul_left _ _
+theorem index_aligned (t : QTime) (rate w n : Nat) : (w : Int) ∣ indexAtTime t rate w n :=
+  ⟨(clampSample (sampleAtTime t rate) n : Nat), by unfold indexAtTime; rw [Int.natCast_mul, Int.mul_comm]⟩
 
-theorem index_div (t : QTime) (rate w : Nat) (hw : 0 < w) : indexAtTime t rate w / w = sampleAtTime t rate :=
-  Int.mul_ediv_cancel _ (by omega)
+theorem index_aligned' (wv : Wav) (t : QTime) : (wv.width : Int) ∣ wv.index t := index_aligned _ _ _ _
 
-/-- **the sample index used is the integer nearest to `t * rate`, ties to the even index** -/
-theorem index_nearest (t : QTime) (rate w : Nat) (hw : 0 < w) (hd : 0 < t.den) :
-    IsRoundHalfEven (t.num * rate) t.den (indexAtTime t rate w / w) := by
-  rw [index_div t rate w hw]; exact roundHalfEven_spec _ _ hd
+theorem index_div (t : QTime) (rate w n : Nat) (hw : 0 < w) :
+    indexAtTime t rate w n / w = (clampSample (sampleAtTime t rate) n : Nat) := by
+  unfold indexAtTime; rw [Int.natCast_mul]; exact Int.mul_ediv_cancel _ (by omega)
+
+/-- **the sample index used is the integer nearest to `t * rate` (ties to the even index), clamped into the
+recording `[0, n]`** — for every rational time -/
+theorem index_nearest (t : QTime) (rate w n : Nat) (hw : 0 < w) (hd : 0 < t.den) :
+    IsRoundHalfEven (t.num * rate) t.den (sampleAtTime t rate) ∧
+    indexAtTime t rate w n / w = min (max (sampleAtTime t rate) 0) n := by
+  rw [index_div t rate w n hw, clampSample_eq]; exact ⟨roundHalfEven_spec _ _ hd, rfl⟩
 
 /-- no integer is nearer to `num/den` than `roundHalfEven num den` -/
 theorem roundHalfEven_nearest (num : Int) (den : Nat) (h : 0 < den) (m : Int) :
@@ -430,6 +459,35 @@ theorem sampleAtTime_eqv (a b : QTime) (ha : 0 < a.den) (hb : 0 < b.den) (h : QT
   have e : (b.den : Int) * (a.num * rate) = (a.den : Int) * (b.num * rate) := by grind
   rw [e, Nat.mul_comm b.den a.den]
 
+/-- **among the sample boundaries `0..n` of the recording none is nearer to `num/den` than the clamped
+index** — "the sample indices nearest to the requested times", for every rational time -/
+theorem clampSample_nearest (num : Int) (den : Nat) (h : 0 < den) (n m : Nat) (hm : m ≤ n) :
+    (((clampSample (roundHalfEven num den) n : Nat) : Int) * den - num).natAbs ≤ ((m : Int) * den - num).natAbs := by
+  have hs := roundHalfEven_spec num den h
+  have hnear := roundHalfEven_nearest num den h m
+  unfold IsRoundHalfEven at hs
+  generalize roundHalfEven num den = q at *
+  have hmd : (0 : Int) ≤ (m : Int) * den := Int.mul_nonneg (by omega) (by omega)
+  have hmn : (m : Int) * den ≤ (n : Int) * den := Int.mul_le_mul_of_nonneg_right (by omega) (by omega)
+  by_cases h0 : q < 0
+  · rw [clampSample_nonpos q n (by omega)]
+    have : (q + 1) * (den : Int) ≤ 0 * den := Int.mul_le_mul_of_nonneg_right (by omega) (by omega)
+    rw [Int.add_mul, Int.one_mul, Int.zero_mul] at this
+    simp only [Int.natCast_zero, Int.zero_mul]
+    omega
+  · by_cases h1 : q ≤ n
+    · rw [clampSample_of_range q n (by omega) h1]; exact hnear
+    · rw [clampSample_beyond q n (by omega)]
+      have : ((n : Int) + 1) * (den : Int) ≤ q * den := Int.mul_le_mul_of_nonneg_right (by omega) (by omega)
+      rw [Int.add_mul, Int.one_mul] at this
+      omega
+
+/-- … stated for the recording: `wv.sampleIndex t` is a boundary of the recording and no boundary is nearer to `t` -/
+theorem sampleIndex_nearest (wv : Wav) (t : QTime) (hd : 0 < t.den) (m : Nat) (hm : m ≤ wv.nsamples) :
+    wv.sampleIndex t ≤ wv.nsamples ∧
+    (((wv.sampleIndex t : Nat) : Int) * t.den - t.num * wv.rate).natAbs ≤ ((m : Int) * t.den - t.num * wv.rate).natAbs :=
+  ⟨clampSample_le _ _, clampSample_nearest _ _ hd _ m hm⟩
+
 /-- a time inside the recording: non-negative and at most the duration -/
 def InDur (wv : Wav) (t : QTime) : Prop := 0 < t.den ∧ 0 ≤ t.num ∧ t ≤ wv.duration
 instance (wv : Wav) (t : QTime) : Decidable (InDur wv t) := inferInstanceAs (Decidable (_ ∧ _ ∧ _))
@@ -438,7 +496,11 @@ instance (wv : Wav) (t : QTime) : Decidable (InDur wv t) := inferInstanceAs (Dec
 def Whole (wv : Wav) : Prop := 0 < wv.width ∧ wv.width ∣ wv.frames.length
 instance (wv : Wav) : Decidable (Whole wv) := inferInstanceAs (Decidable (_ ∧ _))
 
-theorem sample_range (wv : Wav) (hwv : Whole wv) (t : QTime) (ht : InDur wv t) :
+/-- the sample count is the length of the decoded list -/
+theorem nsamples_samples (wv : Wav) : wv.samples.length = wv.nsamples := unpack_length _ _
+
+/-- inside the recording the nearest sample index needs no clamping -/
+theorem sampleAtTime_range (wv : Wav) (hwv : Whole wv) (t : QTime) (ht : InDur wv t) :
     0 ≤ sampleAtTime t wv.rate ∧ sampleAtTime t wv.rate ≤ wv.nsamples := by
   obtain ⟨hw, k, hk⟩ := hwv
   obtain ⟨hd, hn, hle⟩ := ht
@@ -455,18 +517,56 @@ theorem sample_range (wv : Wav) (hwv : Whole wv) (t : QTime) (ht : InDur wv t) :
     rw [e1, e2]; exact hle'
   exact Int.le_of_mul_le_mul_right h2 (by omega)
 
-/-- inside the recording the byte index is inside the byte string -/
-theorem index_range (wv : Wav) (hwv : Whole wv) (t : QTime) (ht : InDur wv t) :
-    0 ≤ wv.index t ∧ wv.index t ≤ wv.frames.length := by
-  have ⟨h0, h1⟩ := sample_range wv hwv t ht
-  obtain ⟨hw, k, hk⟩ := hwv
-  have hns : wv.nsamples = k := by unfold Wav.nsamples; rw [hk, Nat.mul_div_cancel_left _ hw]
-  unfold Wav.index indexAtTime
-  refine ⟨Int.mul_nonneg h0 (by omega), ?_⟩
-  rw [hns] at h1
-  have := Int.mul_le_mul_of_nonneg_right h1 (show (0 : Int) ≤ (wv.width : Int) by omega)
-  rw [hk, Int.natCast_mul, Int.mul_comm (wv.width : Int) (k : Int)]
+/-- … `sampleIndex t = round(t * rate)` there -/
+theorem sampleIndex_inDur (wv : Wav) (hwv : Whole wv) (t : QTime) (ht : InDur wv t) :
+    ((wv.sampleIndex t : Nat) : Int) = sampleAtTime t wv.rate := by
+  have ⟨h0, h1⟩ := sampleAtTime_range wv hwv t ht
+  exact clampSample_of_range _ _ h0 h1
+
+/-- **a time at or before the start of the recording addresses its first sample boundary** -/
+theorem sampleIndex_nonpos (wv : Wav) (t : QTime) (hd : 0 < t.den) (hn : t.num ≤ 0) : wv.sampleIndex t = 0 := by
+  apply clampSample_nonpos
+  have := roundHalfEven_le (t.num * wv.rate) t.den hd 0
+    (by rw [Int.zero_mul]; exact Int.mul_nonpos_of_nonpos_of_nonneg hn (by omega))
   exact this
+
+/-- **a time at or beyond the end of the recording addresses its last sample boundary** -/
+theorem sampleIndex_beyond (wv : Wav) (t : QTime) (hd : 0 < t.den)
+    (h : (wv.nsamples : Int) * t.den ≤ t.num * wv.rate) : wv.sampleIndex t = wv.nsamples := by
+  apply clampSample_beyond
+  have hm := roundHalfEven_mono _ _ t.den hd h
+  rwa [roundHalfEven_exact _ _ hd] at hm
+
+/-- rounding and clamping are monotone: an ordered pair of times addresses an ordered pair of boundaries -/
+theorem sampleIndex_mono (wv : Wav) (s e : QTime) (hs : 0 < s.den) (he : 0 < e.den) (hse : s ≤ e) :
+    wv.sampleIndex s ≤ wv.sampleIndex e := by
+  have hle : s.num * e.den ≤ e.num * s.den := hse
+  have h1 : sampleAtTime s wv.rate = roundHalfEven ((e.den : Int) * (s.num * wv.rate)) (e.den * s.den) := by
+    unfold sampleAtTime; rw [roundHalfEven_scale _ _ _ hs he]
+  have h2 : sampleAtTime e wv.rate = roundHalfEven ((s.den : Int) * (e.num * wv.rate)) (e.den * s.den) := by
+    unfold sampleAtTime; rw [Nat.mul_comm e.den s.den, roundHalfEven_scale _ _ _ he hs]
+  have hr : (0 : Int) ≤ wv.rate := by omega
+  have hm : (e.den : Int) * (s.num * wv.rate) ≤ (s.den : Int) * (e.num * wv.rate) := by
+    have := Int.mul_le_mul_of_nonneg_right hle hr
+    have e1 : (e.den : Int) * (s.num * wv.rate) = s.num * e.den * wv.rate := by grind
+    have e2 : (s.den : Int) * (e.num * wv.rate) = e.num * s.den * wv.rate := by grind
+    rw [e1, e2]; exact this
+  have := roundHalfEven_mono _ _ (e.den * s.den) (Nat.mul_pos he hs) hm
+  rw [← h1, ← h2] at this
+  unfold Wav.sampleIndex clampSample
+  have := Int.toNat_le_toNat this
+  omega
+
+/-- the sample index never leaves the recording — for every time -/
+theorem sample_range (wv : Wav) (t : QTime) : wv.sampleIndex t ≤ wv.nsamples := clampSample_le _ _
+
+/-- **the byte index of every time lies inside the byte string** (no hypothesis on the time or the recording) -/
+theorem index_range (wv : Wav) (t : QTime) : 0 ≤ wv.index t ∧ wv.index t ≤ wv.frames.length := by
+  have h1 := sample_range wv t
+  have h2 : wv.nsamples * wv.width ≤ wv.frames.length := Nat.div_mul_le_self _ _
+  have h3 : wv.sampleIndex t * wv.width ≤ wv.nsamples * wv.width := Nat.mul_le_mul_right _ h1
+  rw [index_cast]
+  omega
 
 /-! ## 4. edits at aligned indices act on whole samples; every other sample keeps value and order -/
 
@@ -543,278 +643,7 @@ theorem aligned_edits (w : Nat) (hw : 0 < w) (f g : List UInt8) (i j : Int)
   ⟨aligned_delete w hw f i j hi hj hi0 hi1 hj0 hj1, aligned_insert w hw f g i hi hg hi0 hi1,
    aligned_getFrames w hw f i j hi hj hi0 hi1 hj0 hj1⟩
 
-/-! ### the same at time level: inside the recording every time addresses a whole sample -/
-
-theorem index_toNat (wv : Wav) (hw : 0 < wv.width) (t : QTime) :
-    (wv.index t / wv.width).toNat = (sampleAtTime t wv.rate).toNat := by
-  unfold Wav.index; rw [index_div _ _ _ hw]
-
-/-- **getFrames / getSamples return exactly the samples between the two nearest sample indices** -/
-theorem getFrames_samples (wv : Wav) (hwv : Whole wv) (s e : QTime) (hs : InDur wv s) (he : InDur wv e) :
-    unpack wv.width (wv.getFrames s e) =
-      (wv.samples.drop (sampleAtTime s wv.rate).toNat).take
-        ((sampleAtTime e wv.rate).toNat - (sampleAtTime s wv.rate).toNat) := by
-  have ⟨a0, a1⟩ := index_range wv hwv s hs
-  have ⟨b0, b1⟩ := index_range wv hwv e he
-  unfold Wav.getFrames Wav.samples
-  rw [aligned_getFrames wv.width hwv.1 wv.frames (wv.index s) (wv.index e) (index_aligned _ _ _) (index_aligned _ _ _) a0 a1 b0 b1,
-    index_toNat wv hwv.1, index_toNat wv hwv.1]
-
-/-- the frames returned are whole samples, so `getSamples` never raises `struct.error` -/
-theorem getSamples_ok (wv : Wav) (hwv : Whole wv) (hk : knownWidth wv.width = true) (s e : QTime)
-    (hs : InDur wv s) (he : InDur wv e) :
-    wv.getSamples s e = .ok ((wv.samples.drop (sampleAtTime s wv.rate).toNat).take
-        ((sampleAtTime e wv.rate).toNat - (sampleAtTime s wv.rate).toNat)) := by
-  have ⟨a0, a1⟩ := index_range wv hwv s hs
-  have ⟨b0, b1⟩ := index_range wv hwv e he
-  have hlen : (wv.getFrames s e).length % wv.width = 0 := by
-    obtain ⟨a, ha, _⟩ := aligned_index wv.width hwv.1 _ (index_aligned s wv.rate wv.width) a0
-    obtain ⟨b, hb, _⟩ := aligned_index wv.width hwv.1 _ (index_aligned e wv.rate wv.width) b0
-    unfold Wav.getFrames getB slice
-    unfold Wav.index at a0 a1 b0 b1 ⊢
-    rw [pyClamp_of_range _ _ a0 a1, pyClamp_of_range _ _ b0 b1, ha, hb, Int.toNat_natCast, Int.toNat_natCast]
-    have hbl : b * wv.width ≤ wv.frames.length := by omega
-    simp only [List.length_drop, List.length_take, Nat.min_eq_left hbl, ← Nat.sub_mul]
-    exact Nat.mul_mod_left _ _
-  unfold Wav.getSamples convertFromBytes
-  rw [← getFrames_samples wv hwv s e hs he]
-  simp [hk, hlen]
-
-/-- **deleteSegment removes exactly those samples; every other sample keeps value and order** -/
-theorem deleteSegment_samples (wv : Wav) (hwv : Whole wv) (s e : QTime) (hs : InDur wv s) (he : InDur wv e) :
-    (wv.deleteSegment s e).samples =
-      wv.samples.take (sampleAtTime s wv.rate).toNat ++ wv.samples.drop (sampleAtTime e wv.rate).toNat := by
-  have ⟨a0, a1⟩ := index_range wv hwv s hs
-  have ⟨b0, b1⟩ := index_range wv hwv e he
-  unfold Wav.deleteSegment Wav.samples
-  simp only
-  rw [aligned_delete wv.width hwv.1 wv.frames (wv.index s) (wv.index e) (index_aligned _ _ _) (index_aligned _ _ _) a0 a1 b0 b1,
-    index_toNat wv hwv.1, index_toNat wv hwv.1]
-
-/-- **insert places the given frames at the nearest sample boundary; the samples before and after keep
-value and order** -/
-theorem insert_samples (wv : Wav) (hwv : Whole wv) (t : QTime) (ht : InDur wv t) (g : List UInt8)
-    (hg : wv.width ∣ g.length) :
-    (wv.insert t g).samples =
-      wv.samples.take (sampleAtTime t wv.rate).toNat ++ unpack wv.width g ++
-        wv.samples.drop (sampleAtTime t wv.rate).toNat := by
-  have ⟨a0, a1⟩ := index_range wv hwv t ht
-  unfold Wav.insert Wav.samples
-  simp only
-  rw [aligned_insert wv.width hwv.1 wv.frames g (wv.index t) (index_aligned _ _ _) hg a0 a1, index_toNat wv hwv.1]
-
-theorem concatenate_samples (wv : Wav) (hwv : Whole wv) (g : List UInt8) :
-    (wv.concatenate g).samples = wv.samples ++ unpack wv.width g := by
-  obtain ⟨hw, k, hk⟩ := hwv
-  unfold Wav.concatenate Wav.samples
-  simp only
-  exact unpack_append wv.width k hw _ _ (by rw [hk, Nat.mul_comm])
-
-theorem getSubwav_samples (wv : Wav) (hwv : Whole wv) (s e : QTime) (hs : InDur wv s) (he : InDur wv e) :
-    (wv.getSubwav s e).samples =
-      (wv.samples.drop (sampleAtTime s wv.rate).toNat).take
-        ((sampleAtTime e wv.rate).toNat - (sampleAtTime s wv.rate).toNat) ∧
-    (wv.getSubwav s e).width = wv.width ∧ (wv.getSubwav s e).rate = wv.rate :=
-  ⟨getFrames_samples wv hwv s e hs he, rfl, rfl⟩
-
-/-- **replaceSegment = the samples before the start, the new samples, the samples after the end** -/
-theorem replaceSegment_samples (wv : Wav) (hwv : Whole wv) (s e : QTime) (hs : InDur wv s) (he : InDur wv e)
-    (g : List UInt8) (hg : wv.width ∣ g.length) :
-    (wv.replaceSegment s e g).samples =
-      wv.samples.take (sampleAtTime s wv.rate).toNat ++ unpack wv.width g ++
-        wv.samples.drop (sampleAtTime e wv.rate).toNat := by
-  have ⟨a0, a1⟩ := index_range wv hwv s hs
-  have ⟨b0, b1⟩ := index_range wv hwv e he
-  have hsr := (sample_range wv hwv s hs).2
-  have hU := aligned_delete wv.width hwv.1 wv.frames (wv.index s) (wv.index e) (index_aligned _ _ _)
-    (index_aligned _ _ _) a0 a1 b0 b1
-  rw [index_toNat wv hwv.1, index_toNat wv hwv.1] at hU
-  have hlen : wv.index s ≤ (deleteB wv.frames (wv.index s) (wv.index e)).length := by
-    unfold deleteB sliceTo sliceFrom
-    rw [pyClamp_of_range _ _ a0 a1, pyClamp_of_range _ _ b0 b1]
-    simp only [List.length_append, List.length_take, List.length_drop]
-    omega
-  have hins := aligned_insert wv.width hwv.1 (deleteB wv.frames (wv.index s) (wv.index e)) g (wv.index s)
-    (index_aligned _ _ _) hg a0 hlen
-  rw [index_toNat wv hwv.1, hU] at hins
-  have htl : (wv.samples.take (sampleAtTime s wv.rate).toNat).length = (sampleAtTime s wv.rate).toNat := by
-    rw [List.length_take, Wav.samples, unpack_length]
-    unfold Wav.nsamples at hsr
-    exact Nat.min_eq_left (Int.toNat_le.2 hsr)
-  unfold Wav.samples at htl
-  rw [List.take_left' htl, List.drop_left' htl] at hins
-  exact hins
-
-/-! ### histories: every state of every history is made of whole samples, for arbitrary times -/
-
-theorem pyClamp_aligned (w : Nat) (hw : 0 < w) (n : Nat) (i : Int) (hn : w ∣ n) (hi : (w : Int) ∣ i) :
-    ∃ a : Nat, pyClamp n i = a * w ∧ a * w ≤ n := by
-  obtain ⟨k, hk⟩ := hn
-  unfold pyClamp
-  split
-  · by_cases h0 : 0 ≤ i + (n : Int)
-    · have hd : (w : Int) ∣ i + (n : Int) := Int.dvd_add hi ⟨k, by rw [hk, Int.natCast_mul]⟩
-      obtain ⟨a, ha, _⟩ := aligned_index w hw _ hd h0
-      exact ⟨a, by rw [ha, Int.toNat_natCast], by omega⟩
-    · exact ⟨0, by omega, by omega⟩
-  · obtain ⟨a, ha, _⟩ := aligned_index w hw i hi (by omega)
-    by_cases hle : i.toNat ≤ n
-    · exact ⟨a, by rw [Nat.min_eq_left hle, ha, Int.toNat_natCast], by omega⟩
-    · exact ⟨k, by rw [Nat.min_eq_right (by omega), hk, Nat.mul_comm], by rw [hk, Nat.mul_comm]; exact Nat.le_refl _⟩
-
-/-- the frames an edit brings in are whole samples -/
-def WholeFrames (w : Nat) : Edit → Prop
-  | .ins _ g => w ∣ g.length
-  | .rep _ _ g => w ∣ g.length
-  | .cat g => w ∣ g.length
-  | _ => True
-
-theorem deleteB_whole (w : Nat) (hw : 0 < w) (f : List UInt8) (hf : w ∣ f.length) (i j : Int)
-    (hi : (w : Int) ∣ i) (hj : (w : Int) ∣ j) : w ∣ (deleteB f i j).length := by
-  obtain ⟨a, ha, hal⟩ := pyClamp_aligned w hw f.length i hf hi
-  obtain ⟨b, hb, hbl⟩ := pyClamp_aligned w hw f.length j hf hj
-  obtain ⟨k, hk⟩ := hf
-  unfold deleteB sliceTo sliceFrom
-  simp only [List.length_append, List.length_take, List.length_drop, ha, hb]
-  refine ⟨a + (k - b), ?_⟩
-  rw [Nat.min_eq_left hal, hk, Nat.mul_add, Nat.mul_sub, Nat.mul_comm w a, Nat.mul_comm w b]
-
-theorem insertB_whole (w : Nat) (f g : List UInt8) (hf : w ∣ f.length) (hg : w ∣ g.length) (i : Int) :
-    w ∣ (insertB f i g).length := by
-  obtain ⟨k, hk⟩ := hf
-  obtain ⟨m, hm⟩ := hg
-  unfold insertB sliceTo sliceFrom
-  simp only [List.length_append, List.length_take, List.length_drop]
-  refine ⟨k + m, ?_⟩
-  rw [Nat.mul_add]; omega
-
-theorem getB_whole (w : Nat) (hw : 0 < w) (f : List UInt8) (hf : w ∣ f.length) (i j : Int)
-    (hi : (w : Int) ∣ i) (hj : (w : Int) ∣ j) : w ∣ (getB f i j).length := by
-  obtain ⟨a, ha, _⟩ := pyClamp_aligned w hw f.length i hf hi
-  obtain ⟨b, hb, hbl⟩ := pyClamp_aligned w hw f.length j hf hj
-  unfold getB slice
-  simp only [List.length_take, List.length_drop, ha, hb]
-  refine ⟨b - a, ?_⟩
-  rw [Nat.mul_sub, Nat.min_eq_left hbl]
-  rw [Nat.mul_comm w b, Nat.mul_comm w a]
-
-/-- **every edit maps whole-sample recordings to whole-sample recordings, whatever the times**
-(negative, beyond the end, off the sample grid, start after end) -/
-theorem edit_whole (wv : Wav) (hwv : Whole wv) (e : Edit) (he : WholeFrames wv.width e) :
-    Whole (e.apply wv) ∧ (e.apply wv).width = wv.width ∧ (e.apply wv).rate = wv.rate := by
-  obtain ⟨hw, hf⟩ := hwv
-  cases e with
-  | ins t g => exact ⟨⟨hw, insertB_whole _ _ _ hf he _⟩, rfl, rfl⟩
-  | del s e => exact ⟨⟨hw, deleteB_whole _ hw _ hf _ _ (index_aligned _ _ _) (index_aligned _ _ _)⟩, rfl, rfl⟩
-  | rep s e g =>
-    exact ⟨⟨hw, insertB_whole _ _ _ (deleteB_whole _ hw _ hf _ _ (index_aligned _ _ _) (index_aligned _ _ _)) he _⟩, rfl, rfl⟩
-  | cat g =>
-    obtain ⟨k, hk⟩ := hf
-    obtain ⟨m, hm⟩ := he
-    refine ⟨⟨hw, k + m, ?_⟩, rfl, rfl⟩
-    show (wv.frames ++ g).length = wv.width * (k + m)
-    rw [List.length_append, Nat.mul_add]; omega
-  | sub s e => exact ⟨⟨hw, getB_whole _ hw _ hf _ _ (index_aligned _ _ _) (index_aligned _ _ _)⟩, rfl, rfl⟩
-
-theorem history_whole (wv : Wav) (hwv : Whole wv) (es : List Edit) (he : ∀ e ∈ es, WholeFrames wv.width e) :
-    ∀ x ∈ runEdits wv es, Whole x ∧ x.width = wv.width ∧ x.rate = wv.rate := by
-  induction es generalizing wv with
-  | nil => intro x hx; simp [runEdits] at hx
-  | cons e es ih =>
-    intro x hx
-    have h1 := edit_whole wv hwv e (he e (by simp))
-    simp only [runEdits, List.mem_cons] at hx
-    rcases hx with rfl | hx
-    · exact h1
-    · have := ih (e.apply wv) h1.1 (fun e' he' => by rw [h1.2.1]; exact he e' (by simp [he'])) x hx
-      exact ⟨this.1, by rw [this.2.1, h1.2.1], by rw [this.2.2, h1.2.2]⟩
-
-/-- hence `getSamples` / `convertFromBytes` never meet a ragged byte string in a history -/
-theorem whole_convert_ok (wv : Wav) (hwv : Whole wv) (hk : knownWidth wv.width = true) :
-    convertFromBytes wv.frames wv.width = .ok wv.samples := by
-  obtain ⟨hw, k, hk'⟩ := hwv
-  unfold convertFromBytes Wav.samples
-  have : wv.frames.length % wv.width = 0 := by rw [hk']; exact Nat.mul_mod_right _ _
-  simp [hk, this]
-
-/-! ## 5. insert, then delete the same stretch -/
-
-/-- byte level: for an insertion point inside the byte string, deleting `[i, i + |g|)` after inserting
-`g` at `i` restores the byte string — no alignment needed -/
-theorem insert_delete_inverse_bytes (f g : List UInt8) (i : Int) (h0 : 0 ≤ i) (h1 : i ≤ f.length) :
-    deleteB (insertB f i g) i (i + g.length) = f := by
-  have hc : i.toNat ≤ f.length := by omega
-  have hlen : (insertB f i g).length = f.length + g.length := by
-    unfold insertB sliceTo sliceFrom
-    simp only [List.length_append, List.length_take, List.length_drop]; omega
-  unfold deleteB sliceTo sliceFrom
-  rw [hlen, pyClamp_of_range _ _ h0 (by omega), pyClamp_of_range _ _ (by omega) (by omega)]
-  unfold insertB sliceTo sliceFrom
-  rw [pyClamp_of_range _ _ h0 h1]
-  have hl1 : (f.take i.toNat).length = i.toNat := by rw [List.length_take]; omega
-  have hl2 : (f.take i.toNat ++ g).length = (i + (g.length : Int)).toNat := by
-    rw [List.length_append, hl1]; omega
-  rw [List.append_assoc, List.take_left' hl1, ← List.append_assoc, List.drop_left' hl2, List.take_append_drop]
-
-/-- beyond the end of the byte string Python's clamping breaks the byte-level inverse
-(`insert` appends, `deleteSegment` then cuts nothing of the appended bytes) — outside `[0, duration]` -/
-theorem insert_delete_bytes_beyond_end :
-    deleteB (insertB [1, 2] 5 [9]) 5 (5 + 1) = [1, 2, 9] := by decide
-
-/-- **time level**: inserting `g` at `t` and deleting from `t` to any end time whose index is
-`index t + |g|` restores the recording exactly -/
-theorem insert_delete_inverse (wv : Wav) (hwv : Whole wv) (t e : QTime) (ht : InDur wv t) (g : List UInt8)
-    (h : wv.index e = wv.index t + g.length) :
-    (wv.insert t g).deleteSegment t e = wv := by
-  have ⟨a0, a1⟩ := index_range wv hwv t ht
-  unfold Wav.deleteSegment Wav.insert
-  show ({ wv with frames := deleteB (insertB wv.frames (wv.index t) g) (wv.index t) (wv.index e) } : Wav) = wv
-  rw [h, insert_delete_inverse_bytes _ _ _ a0 a1]
-
-/-- the same with the end time written as `t + len(g)/rate/width`; the index hypothesis is explicit
-because round-half-to-even does not commute with adding an odd number of samples at a half-sample time -/
-theorem insert_delete_inverse_dur (wv : Wav) (hwv : Whole wv) (t : QTime) (ht : InDur wv t) (g : List UInt8)
-    (h : wv.index (t + wv.durOf g) = wv.index t + g.length) :
-    (wv.insert t g).deleteSegment t (t + wv.durOf g) = wv :=
-  insert_delete_inverse wv hwv t _ ht g h
-
-/-- the recording of the counter-examples: 8 one-byte samples at 8 Hz -/
-def exWav : Wav := ⟨1, 8, [1, 2, 3, 4, 5, 6, 7, 8]⟩
-
-/-- **the index hypothesis can fail** (DESIGN §5 A15): rate 8, `t = 0.3125 = 2.5` samples, one sample
-inserted — `round(2.5) = 2` but `round(3.5) = 4` -/
-theorem insert_delete_index_counterexample :
-    exWav.index ((⟨5, 16⟩ : QTime) + exWav.durOf [77]) = 4 ∧ exWav.index ⟨5, 16⟩ + 1 = 3 := by decide
-
-/-- … and then the original is **not** restored: two samples are deleted -/
-theorem insert_delete_time_counterexample :
-    ((exWav.insert ⟨5, 16⟩ [77]).deleteSegment ⟨5, 16⟩ ((⟨5, 16⟩ : QTime) + exWav.durOf [77])).frames
-      = [1, 2, 4, 5, 6, 7, 8] ∧
-    InDur exWav ⟨5, 16⟩ ∧ Whole exWav := by decide
-
-/-! ## 6. duration -/
-
-/-- `duration = len(frames) / frameRate / sampleWidth` -/
-theorem duration_def (wv : Wav) : wv.duration = ⟨wv.frames.length, wv.rate * wv.width⟩ := rfl
-
-/-- **duration = sample count / frame rate** (as rational values) -/
-theorem duration_samples (wv : Wav) (hwv : Whole wv) : QTime.eqv wv.duration ⟨wv.nsamples, wv.rate⟩ := by
-  obtain ⟨hw, k, hk⟩ := hwv
-  have hns : wv.nsamples = k := by unfold Wav.nsamples; rw [hk, Nat.mul_div_cancel_left _ hw]
-  unfold QTime.eqv Wav.duration
-  simp only [hns, hk, Int.natCast_mul]
-  grind
-
-/-- the sample count is the length of the decoded list -/
-theorem nsamples_samples (wv : Wav) : wv.samples.length = wv.nsamples := unpack_length _ _
-
-/-! ## 6b. all non-negative times (also beyond the end of the recording); negative times -/
-
-/-- a non-negative time (any magnitude: also beyond the end of the recording) -/
-def NonNeg (t : QTime) : Prop := 0 < t.den ∧ 0 ≤ t.num
-instance (t : QTime) : Decidable (NonNeg t) := inferInstanceAs (Decidable (_ ∧ _))
-
-theorem InDur.nonNeg {wv : Wav} {t : QTime} (h : InDur wv t) : NonNeg t := ⟨h.1, h.2.1⟩
+/-! ### byte level, any non-negative aligned indices (also beyond the end of the byte string) -/
 
 theorem min_mul_right (w k a : Nat) : min (a * w) (k * w) = min a k * w := by
   by_cases h : a ≤ k
@@ -890,130 +719,446 @@ theorem nonneg_getFrames (w : Nat) (hw : 0 < w) (f : List UInt8) (k : Nat) (hk :
   rw [pyClamp_nat w k f hk a, pyClamp_nat w k f hk b, pyClamp_nat w k f hk (min a k), pyClamp_nat w k f hk (min b k)]
   simp [Nat.min_assoc]
 
-/-- the sample index of a non-negative time is a natural number, the byte index is that number of samples -/
-theorem index_nat (wv : Wav) (t : QTime) (ht : NonNeg t) :
-    ∃ A : Nat, sampleAtTime t wv.rate = A ∧ wv.index t = ((A * wv.width : Nat) : Int) := by
-  have h0 : 0 ≤ sampleAtTime t wv.rate := roundHalfEven_nonneg _ _ ht.1 (Int.mul_nonneg ht.2 (by omega))
-  obtain ⟨A, hA⟩ := Int.eq_ofNat_of_zero_le h0
-  exact ⟨A, hA, by unfold Wav.index indexAtTime; rw [hA, Int.natCast_mul]⟩
+theorem pyClamp_aligned (w : Nat) (hw : 0 < w) (n : Nat) (i : Int) (hn : w ∣ n) (hi : (w : Int) ∣ i) :
+    ∃ a : Nat, pyClamp n i = a * w ∧ a * w ≤ n := by
+  obtain ⟨k, hk⟩ := hn
+  unfold pyClamp
+  split
+  · by_cases h0 : 0 ≤ i + (n : Int)
+    · have hd : (w : Int) ∣ i + (n : Int) := Int.dvd_add hi ⟨k, by rw [hk, Int.natCast_mul]⟩
+      obtain ⟨a, ha, _⟩ := aligned_index w hw _ hd h0
+      exact ⟨a, by rw [ha, Int.toNat_natCast], by omega⟩
+    · exact ⟨0, by omega, by omega⟩
+  · obtain ⟨a, ha, _⟩ := aligned_index w hw i hi (by omega)
+    by_cases hle : i.toNat ≤ n
+    · exact ⟨a, by rw [Nat.min_eq_left hle, ha, Int.toNat_natCast], by omega⟩
+    · exact ⟨k, by rw [Nat.min_eq_right (by omega), hk, Nat.mul_comm], by rw [hk, Nat.mul_comm]; exact Nat.le_refl _⟩
 
-/-- **getFrames / getSamples for every pair of non-negative times** — also beyond the end of the recording
-(Python's slice clamps: the samples from the start index to the end of the recording) and for an end before
-the start (nothing) -/
-theorem getFrames_samples_nonneg (wv : Wav) (hwv : Whole wv) (s e : QTime) (hs : NonNeg s) (he : NonNeg e) :
-    unpack wv.width (wv.getFrames s e) =
-      (wv.samples.drop (sampleAtTime s wv.rate).toNat).take
-        ((sampleAtTime e wv.rate).toNat - (sampleAtTime s wv.rate).toNat) := by
+/-- the frames an edit brings in are whole samples -/
+def WholeFrames (w : Nat) : Edit → Prop
+  | .ins _ g => w ∣ g.length
+  | .rep _ _ g => w ∣ g.length
+  | .cat g => w ∣ g.length
+  | _ => True
+
+theorem deleteB_whole (w : Nat) (hw : 0 < w) (f : List UInt8) (hf : w ∣ f.length) (i j : Int)
+    (hi : (w : Int) ∣ i) (hj : (w : Int) ∣ j) : w ∣ (deleteB f i j).length := by
+  obtain ⟨a, ha, hal⟩ := pyClamp_aligned w hw f.length i hf hi
+  obtain ⟨b, hb, hbl⟩ := pyClamp_aligned w hw f.length j hf hj
+  obtain ⟨k, hk⟩ := hf
+  unfold deleteB sliceTo sliceFrom
+  simp only [List.length_append, List.length_take, List.length_drop, ha, hb]
+  refine ⟨a + (k - b), ?_⟩
+  rw [Nat.min_eq_left hal, hk, Nat.mul_add, Nat.mul_sub, Nat.mul_comm w a, Nat.mul_comm w b]
+
+theorem insertB_whole (w : Nat) (f g : List UInt8) (hf : w ∣ f.length) (hg : w ∣ g.length) (i : Int) :
+    w ∣ (insertB f i g).length := by
+  obtain ⟨k, hk⟩ := hf
+  obtain ⟨m, hm⟩ := hg
+  unfold insertB sliceTo sliceFrom
+  simp only [List.length_append, List.length_take, List.length_drop]
+  refine ⟨k + m, ?_⟩
+  rw [Nat.mul_add]; omega
+
+theorem getB_whole (w : Nat) (hw : 0 < w) (f : List UInt8) (hf : w ∣ f.length) (i j : Int)
+    (hi : (w : Int) ∣ i) (hj : (w : Int) ∣ j) : w ∣ (getB f i j).length := by
+  obtain ⟨a, ha, _⟩ := pyClamp_aligned w hw f.length i hf hi
+  obtain ⟨b, hb, hbl⟩ := pyClamp_aligned w hw f.length j hf hj
+  unfold getB slice
+  simp only [List.length_take, List.length_drop, ha, hb]
+  refine ⟨b - a, ?_⟩
+  rw [Nat.mul_sub, Nat.min_eq_left hbl]
+  rw [Nat.mul_comm w b, Nat.mul_comm w a]
+
+/-! ### the same at time level: EVERY time addresses a whole sample inside the recording
+
+Since the repair 300c9d2 (`_getIndexAtTime` clamps the sample index into `[0, number of samples]`) the
+following hold for **all** rational times — negative, beyond the end, off the sample grid — with no
+window hypothesis; `wv.sampleIndex t` is the boundary nearest to `t` (`sampleIndex_nearest`). -/
+
+/-- **getFrames / getSamples return exactly the samples between the two nearest sample indices** -/
+theorem getFramesRaw_samples (wv : Wav) (hwv : Whole wv) (s e : QTime) :
+    unpack wv.width (wv.getFramesRaw s e) =
+      (wv.samples.drop (wv.sampleIndex s)).take (wv.sampleIndex e - wv.sampleIndex s) := by
   obtain ⟨hw, k, hk⟩ := hwv
-  obtain ⟨A, hA, hiA⟩ := index_nat wv s hs
-  obtain ⟨B, hB, hiB⟩ := index_nat wv e he
-  unfold Wav.getFrames Wav.samples
-  rw [hiA, hiB, hA, hB, Int.toNat_natCast, Int.toNat_natCast]
-  exact nonneg_getFrames wv.width hw wv.frames k (by rw [hk, Nat.mul_comm]) A B
+  unfold Wav.getFramesRaw Wav.samples
+  rw [index_cast, index_cast]
+  exact nonneg_getFrames wv.width hw wv.frames k (by rw [hk, Nat.mul_comm]) _ _
 
-/-- … and `getSamples` never raises there -/
-theorem getSamples_ok_nonneg (wv : Wav) (hwv : Whole wv) (hk : knownWidth wv.width = true) (s e : QTime)
-    (hs : NonNeg s) (he : NonNeg e) :
-    wv.getSamples s e = .ok ((wv.samples.drop (sampleAtTime s wv.rate).toNat).take
-        ((sampleAtTime e wv.rate).toNat - (sampleAtTime s wv.rate).toNat)) := by
-  have hlen : (wv.getFrames s e).length % wv.width = 0 :=
-    Nat.mod_eq_zero_of_dvd (getB_whole _ hwv.1 _ hwv.2 _ _ (index_aligned _ _ _) (index_aligned _ _ _))
-  unfold Wav.getSamples convertFromBytes
-  rw [← getFrames_samples_nonneg wv hwv s e hs he]
-  simp [hk, hlen]
-
-/-- **deleteSegment for every pair of non-negative times**: beyond the end nothing more is removed -/
-theorem deleteSegment_samples_nonneg (wv : Wav) (hwv : Whole wv) (s e : QTime) (hs : NonNeg s) (he : NonNeg e) :
-    (wv.deleteSegment s e).samples =
-      wv.samples.take (sampleAtTime s wv.rate).toNat ++ wv.samples.drop (sampleAtTime e wv.rate).toNat := by
+/-- **deleteSegment removes exactly those samples; every other sample keeps value and order** -/
+theorem deleteSegmentRaw_samples (wv : Wav) (hwv : Whole wv) (s e : QTime) :
+    (wv.deleteSegmentRaw s e).samples = wv.samples.take (wv.sampleIndex s) ++ wv.samples.drop (wv.sampleIndex e) := by
   obtain ⟨hw, k, hk⟩ := hwv
-  obtain ⟨A, hA, hiA⟩ := index_nat wv s hs
-  obtain ⟨B, hB, hiB⟩ := index_nat wv e he
-  unfold Wav.deleteSegment Wav.samples
+  unfold Wav.deleteSegmentRaw Wav.samples
   simp only
-  rw [hiA, hiB, hA, hB, Int.toNat_natCast, Int.toNat_natCast]
-  exact nonneg_delete wv.width hw wv.frames k (by rw [hk, Nat.mul_comm]) A B
+  rw [index_cast, index_cast]
+  exact nonneg_delete wv.width hw wv.frames k (by rw [hk, Nat.mul_comm]) _ _
 
-/-- **insert for every non-negative time**: beyond the end the frames are appended -/
-theorem insert_samples_nonneg (wv : Wav) (hwv : Whole wv) (t : QTime) (ht : NonNeg t) (g : List UInt8)
-    (hg : wv.width ∣ g.length) :
+/-- **insert places the given frames at the nearest sample boundary; the samples before and after keep
+value and order** -/
+theorem insert_samples (wv : Wav) (hwv : Whole wv) (t : QTime) (g : List UInt8) (hg : wv.width ∣ g.length) :
     (wv.insert t g).samples =
-      wv.samples.take (sampleAtTime t wv.rate).toNat ++ unpack wv.width g ++
-        wv.samples.drop (sampleAtTime t wv.rate).toNat := by
+      wv.samples.take (wv.sampleIndex t) ++ unpack wv.width g ++ wv.samples.drop (wv.sampleIndex t) := by
   obtain ⟨hw, k, hk⟩ := hwv
-  obtain ⟨A, hA, hiA⟩ := index_nat wv t ht
   unfold Wav.insert Wav.samples
   simp only
-  rw [hiA, hA, Int.toNat_natCast]
-  exact nonneg_insert wv.width hw wv.frames g k (by rw [hk, Nat.mul_comm]) hg A
+  rw [index_cast]
+  exact nonneg_insert wv.width hw wv.frames g k (by rw [hk, Nat.mul_comm]) hg _
 
-theorem getSubwav_samples_nonneg (wv : Wav) (hwv : Whole wv) (s e : QTime) (hs : NonNeg s) (he : NonNeg e) :
-    (wv.getSubwav s e).samples =
-      (wv.samples.drop (sampleAtTime s wv.rate).toNat).take
-        ((sampleAtTime e wv.rate).toNat - (sampleAtTime s wv.rate).toNat) ∧
-    (wv.getSubwav s e).width = wv.width ∧ (wv.getSubwav s e).rate = wv.rate :=
-  ⟨getFrames_samples_nonneg wv hwv s e hs he, rfl, rfl⟩
+theorem concatenate_samples (wv : Wav) (hwv : Whole wv) (g : List UInt8) :
+    (wv.concatenate g).samples = wv.samples ++ unpack wv.width g := by
+  obtain ⟨hw, k, hk⟩ := hwv
+  unfold Wav.concatenate Wav.samples
+  simp only
+  exact unpack_append wv.width k hw _ _ (by rw [hk, Nat.mul_comm])
 
-/-- **replaceSegment with a start inside the recording and any non-negative end** -/
-theorem replaceSegment_samples_nonneg (wv : Wav) (hwv : Whole wv) (s e : QTime) (hs : InDur wv s) (he : NonNeg e)
-    (g : List UInt8) (hg : wv.width ∣ g.length) :
-    (wv.replaceSegment s e g).samples =
-      wv.samples.take (sampleAtTime s wv.rate).toNat ++ unpack wv.width g ++
-        wv.samples.drop (sampleAtTime e wv.rate).toNat := by
-  have hsr := (sample_range wv hwv s hs).2
-  have hd := deleteSegment_samples_nonneg wv hwv s e hs.nonNeg he
-  have hw1 : Whole (wv.deleteSegment s e) :=
-    ⟨hwv.1, deleteB_whole _ hwv.1 _ hwv.2 _ _ (index_aligned _ _ _) (index_aligned _ _ _)⟩
-  have hi := insert_samples_nonneg (wv.deleteSegment s e) hw1 s hs.nonNeg g hg
-  have htl : (wv.samples.take (sampleAtTime s wv.rate).toNat).length = (sampleAtTime s wv.rate).toNat := by
-    rw [List.length_take, nsamples_samples]
-    exact Nat.min_eq_left (Int.toNat_le.2 hsr)
-  unfold Wav.replaceSegment
-  rw [hi, hd]
-  show List.take (sampleAtTime s wv.rate).toNat (_ ++ _) ++ unpack wv.width g ++
-    List.drop (sampleAtTime s wv.rate).toNat (_ ++ _) = _
+theorem getSubwavRaw_samples (wv : Wav) (hwv : Whole wv) (s e : QTime) :
+    (wv.getSubwavRaw s e).samples =
+      (wv.samples.drop (wv.sampleIndex s)).take (wv.sampleIndex e - wv.sampleIndex s) ∧
+    (wv.getSubwavRaw s e).width = wv.width ∧ (wv.getSubwavRaw s e).rate = wv.rate :=
+  ⟨getFramesRaw_samples wv hwv s e, rfl, rfl⟩
+
+/-- the number of samples after `deleteSegment` -/
+theorem deleteSegmentRaw_nsamples (wv : Wav) (hwv : Whole wv) (s e : QTime) :
+    (wv.deleteSegmentRaw s e).nsamples = wv.sampleIndex s + (wv.nsamples - wv.sampleIndex e) := by
+  have h := congrArg List.length (deleteSegmentRaw_samples wv hwv s e)
+  rw [nsamples_samples] at h
+  rw [h, List.length_append, List.length_take, List.length_drop, nsamples_samples]
+  have := sample_range wv s
+  omega
+
+/-- **replaceSegment = the samples before the start, the new samples, the samples after the end** — for every
+pair of times that address an ordered pair of boundaries (every `s ≤ e`: `sampleIndex_mono`) -/
+theorem replaceSegmentRaw_samples (wv : Wav) (hwv : Whole wv) (s e : QTime)
+    (hse : wv.sampleIndex s ≤ wv.sampleIndex e) (g : List UInt8) (hg : wv.width ∣ g.length) :
+    (wv.replaceSegmentRaw s e g).samples =
+      wv.samples.take (wv.sampleIndex s) ++ unpack wv.width g ++ wv.samples.drop (wv.sampleIndex e) := by
+  have hd := deleteSegmentRaw_samples wv hwv s e
+  have hw1 : Whole (wv.deleteSegmentRaw s e) :=
+    ⟨hwv.1, deleteB_whole _ hwv.1 _ hwv.2 _ _ (index_aligned' _ _) (index_aligned' _ _)⟩
+  have hi := insert_samples (wv.deleteSegmentRaw s e) hw1 s g hg
+  have hsr := sample_range wv s
+  have her := sample_range wv e
+  -- the insertion index is the same in the shortened recording
+  have hidx : (wv.deleteSegmentRaw s e).sampleIndex s = wv.sampleIndex s := by
+    have hn := deleteSegmentRaw_nsamples wv hwv s e
+    show clampSample (sampleAtTime s wv.rate) (wv.deleteSegmentRaw s e).nsamples = clampSample (sampleAtTime s wv.rate) wv.nsamples
+    rw [hn]
+    unfold Wav.sampleIndex clampSample at hse hsr her ⊢
+    omega
+  have htl : (wv.samples.take (wv.sampleIndex s)).length = wv.sampleIndex s := by
+    rw [List.length_take, nsamples_samples]; exact Nat.min_eq_left hsr
+  unfold Wav.replaceSegmentRaw
+  rw [hi, hd, hidx]
+  show List.take (wv.sampleIndex s) (_ ++ _) ++ unpack wv.width g ++ List.drop (wv.sampleIndex s) (_ ++ _) = _
   rw [List.take_left' htl, List.drop_left' htl]
 
-/-! ### negative times, and a start after the end: the statement does **not** extend there -/
+/-! ### the operations as they are called: the time range is validated first (commit 0a07868)
 
-/-- **negative times count from the END of the recording** (Python's negative slice bounds): the window
-`[-0.25 s, 1 s]` of the 1-second recording `exWav` is its last two samples (not the whole recording), the
-window `[-0.25 s, 0.5 s]` is empty (not the first four samples), and the window `[0.25 s, -0.25 s]`, whose
-end lies before its start, holds four samples.  Outside the quantifier `[0, duration]`, inside the
-statement's "arbitrary real-valued times". -/
-theorem getFrames_negative_counterexample :
-    exWav.getFrames ⟨-1, 4⟩ ⟨1, 1⟩ = [7, 8] ∧ exWav.getFrames ⟨-1, 4⟩ ⟨1, 2⟩ = [] ∧
-    exWav.getFrames ⟨1, 4⟩ ⟨-1, 4⟩ = [3, 4, 5, 6] := by decide
+`getFrames`, `getSamples`, `getSubwav`, `deleteSegment`, `replaceSegment` raise `ArgumentError` for a range whose
+start lies after its end — before anything is changed (`reversed_rejected`) — and otherwise do what the
+theorems above say, for ALL rational times.  `¬ e < s` (i.e. `s ≤ e`) is not a window hypothesis: it is the
+condition under which the call returns, and its complement is `reversed_rejected`. -/
 
-/-- **`deleteSegment` with a negative start makes the recording longer**: `deleteSegment(-0.25, 0.5)` keeps
-`frames[:-2]` and appends `frames[4:]` — samples 5 and 6 occur twice; with a negative end it removes the
-samples up to two before the end -/
-theorem deleteSegment_negative_counterexample :
-    (exWav.deleteSegment ⟨-1, 4⟩ ⟨1, 2⟩).frames = [1, 2, 3, 4, 5, 6, 5, 6, 7, 8] ∧
-    (exWav.deleteSegment ⟨1, 2⟩ ⟨-1, 4⟩).frames = [1, 2, 3, 4, 7, 8] := by decide
+/-- **a reversed time range is rejected by every range operation**, whatever the recording (before the repair
+`deleteSegment(0.5, 0.25)` duplicated the samples between the two times and `getFrames` was silently empty) -/
+theorem reversed_rejected (wv : Wav) (s e : QTime) (g : List UInt8) (h : e < s) :
+    wv.getFrames s e = .error .ArgumentError ∧ wv.getSamples s e = .error .ArgumentError ∧
+    wv.getSubwav s e = .error .ArgumentError ∧ wv.deleteSegment s e = .error .ArgumentError ∧
+    wv.replaceSegment s e g = .error .ArgumentError := by
+  have h1 : wv.getFrames s e = .error .ArgumentError := by unfold Wav.getFrames; rw [if_pos h]
+  refine ⟨h1, ?_, ?_, ?_, ?_⟩
+  · unfold Wav.getSamples; rw [h1]
+  · unfold Wav.getSubwav; rw [h1]
+  · unfold Wav.deleteSegment; rw [if_pos h]
+  · unfold Wav.replaceSegment; rw [if_pos h]
 
-/-- `insert` at a negative time inserts before the last samples (here: two from the end), not at the start -/
-theorem insert_negative_counterexample :
-    (exWav.insert ⟨-1, 4⟩ [77]).frames = [1, 2, 3, 4, 5, 6, 77, 7, 8] := by decide
+theorem getFrames_ok (wv : Wav) (s e : QTime) (h : ¬ e < s) : wv.getFrames s e = .ok (wv.getFramesRaw s e) := by
+  unfold Wav.getFrames; rw [if_neg h]
 
-/-- **inside `[0, duration]`: a start after the end.**  `deleteSegment(0.5, 0.25)` removes nothing and
-*duplicates* the samples between the two times (`frames[:4] + frames[2:]`: 8 samples before, 10 after);
-`replaceSegment` likewise.  This is what `deleteSegment_samples` says for `index s > index e`
-(`take i ++ drop j`); `getFrames` is empty there. -/
-theorem deleteSegment_reversed_counterexample :
-    (exWav.deleteSegment ⟨1, 2⟩ ⟨1, 4⟩).frames = [1, 2, 3, 4, 3, 4, 5, 6, 7, 8] ∧
-    (exWav.replaceSegment ⟨1, 2⟩ ⟨1, 4⟩ [77]).frames = [1, 2, 3, 4, 77, 3, 4, 5, 6, 7, 8] ∧
-    exWav.getFrames ⟨1, 2⟩ ⟨1, 4⟩ = [] ∧
+/-- **getFrames returns exactly the samples between the two nearest sample indices** — every `s ≤ e` -/
+theorem getFrames_samples (wv : Wav) (hwv : Whole wv) (s e : QTime) (h : ¬ e < s) :
+    ∃ fr, wv.getFrames s e = .ok fr ∧
+      unpack wv.width fr = (wv.samples.drop (wv.sampleIndex s)).take (wv.sampleIndex e - wv.sampleIndex s) :=
+  ⟨_, getFrames_ok wv s e h, getFramesRaw_samples wv hwv s e⟩
+
+/-- the frames returned are whole samples, so `getSamples` never raises `struct.error` -/
+theorem getSamples_ok (wv : Wav) (hwv : Whole wv) (hk : knownWidth wv.width = true) (s e : QTime) (h : ¬ e < s) :
+    wv.getSamples s e = .ok ((wv.samples.drop (wv.sampleIndex s)).take (wv.sampleIndex e - wv.sampleIndex s)) := by
+  have hlen : (wv.getFramesRaw s e).length % wv.width = 0 :=
+    Nat.mod_eq_zero_of_dvd (getB_whole _ hwv.1 _ hwv.2 _ _ (index_aligned' _ _) (index_aligned' _ _))
+  unfold Wav.getSamples
+  rw [getFrames_ok wv s e h]
+  simp only
+  unfold convertFromBytes
+  rw [← getFramesRaw_samples wv hwv s e]
+  simp [hk, hlen]
+
+/-- **deleteSegment removes exactly those samples; every other sample keeps value and order** — every `s ≤ e` -/
+theorem deleteSegment_samples (wv : Wav) (hwv : Whole wv) (s e : QTime) (h : ¬ e < s) :
+    ∃ w', wv.deleteSegment s e = .ok w' ∧ w'.width = wv.width ∧ w'.rate = wv.rate ∧
+      w'.samples = wv.samples.take (wv.sampleIndex s) ++ wv.samples.drop (wv.sampleIndex e) :=
+  ⟨wv.deleteSegmentRaw s e, by unfold Wav.deleteSegment; rw [if_neg h], rfl, rfl, deleteSegmentRaw_samples wv hwv s e⟩
+
+theorem getSubwav_samples (wv : Wav) (hwv : Whole wv) (s e : QTime) (h : ¬ e < s) :
+    ∃ w', wv.getSubwav s e = .ok w' ∧ w'.width = wv.width ∧ w'.rate = wv.rate ∧
+      w'.samples = (wv.samples.drop (wv.sampleIndex s)).take (wv.sampleIndex e - wv.sampleIndex s) :=
+  ⟨wv.getSubwavRaw s e, by unfold Wav.getSubwav; rw [getFrames_ok wv s e h]; rfl, rfl, rfl, getFramesRaw_samples wv hwv s e⟩
+
+/-- `¬ e < s` is `s ≤ e` -/
+theorem not_lt_iff_le (s e : QTime) : (¬ e < s) ↔ s ≤ e := by
+  show (¬ e.num * s.den < s.num * e.den) ↔ s.num * e.den ≤ e.num * s.den
+  omega
+
+/-- **replaceSegment = the samples before the start, the new samples, the samples after the end** — every `s ≤ e` -/
+theorem replaceSegment_samples (wv : Wav) (hwv : Whole wv) (s e : QTime) (hs : 0 < s.den) (he : 0 < e.den)
+    (h : ¬ e < s) (g : List UInt8) (hg : wv.width ∣ g.length) :
+    ∃ w', wv.replaceSegment s e g = .ok w' ∧ w'.width = wv.width ∧ w'.rate = wv.rate ∧
+      w'.samples = wv.samples.take (wv.sampleIndex s) ++ unpack wv.width g ++ wv.samples.drop (wv.sampleIndex e) :=
+  ⟨wv.replaceSegmentRaw s e g, by unfold Wav.replaceSegment; rw [if_neg h], rfl, rfl,
+    replaceSegmentRaw_samples wv hwv s e (sampleIndex_mono wv s e hs he ((not_lt_iff_le s e).1 h)) g hg⟩
+
+/-! ### histories: every state of every history is made of whole samples, for arbitrary times -/
+
+/-- **every edit that returns maps whole-sample recordings to whole-sample recordings, whatever the times**
+(negative, beyond the end, off the sample grid); an edit that raises changes nothing -/
+theorem edit_whole (wv : Wav) (hwv : Whole wv) (e : Edit) (he : WholeFrames wv.width e) (w' : Wav)
+    (hok : e.apply wv = .ok w') : Whole w' ∧ w'.width = wv.width ∧ w'.rate = wv.rate := by
+  obtain ⟨hw, hf⟩ := hwv
+  cases e with
+  | ins t g =>
+    simp only [Edit.apply, Except.ok.injEq] at hok; subst hok
+    exact ⟨⟨hw, insertB_whole _ _ _ hf he _⟩, rfl, rfl⟩
+  | del s e =>
+    simp only [Edit.apply, Wav.deleteSegment] at hok
+    split at hok
+    · cases hok
+    · simp only [Except.ok.injEq] at hok; subst hok
+      exact ⟨⟨hw, deleteB_whole _ hw _ hf _ _ (index_aligned' _ _) (index_aligned' _ _)⟩, rfl, rfl⟩
+  | rep s e g =>
+    simp only [Edit.apply, Wav.replaceSegment] at hok
+    split at hok
+    · cases hok
+    · simp only [Except.ok.injEq] at hok; subst hok
+      exact ⟨⟨hw, insertB_whole _ _ _ (deleteB_whole _ hw _ hf _ _ (index_aligned' _ _) (index_aligned' _ _)) he _⟩, rfl, rfl⟩
+  | cat g =>
+    simp only [Edit.apply, Except.ok.injEq] at hok; subst hok
+    obtain ⟨k, hk⟩ := hf
+    obtain ⟨m, hm⟩ := he
+    refine ⟨⟨hw, k + m, ?_⟩, rfl, rfl⟩
+    show (wv.frames ++ g).length = wv.width * (k + m)
+    rw [List.length_append, Nat.mul_add]; omega
+  | sub s e =>
+    simp only [Edit.apply, Wav.getSubwav, Wav.getFrames] at hok
+    by_cases hrev : e < s
+    · rw [if_pos hrev] at hok; cases hok
+    · rw [if_neg hrev] at hok
+      simp only [Except.ok.injEq] at hok; subst hok
+      exact ⟨⟨hw, getB_whole _ hw _ hf _ _ (index_aligned' _ _) (index_aligned' _ _)⟩, rfl, rfl⟩
+
+theorem history_whole (wv : Wav) (hwv : Whole wv) (es : List Edit) (he : ∀ e ∈ es, WholeFrames wv.width e) :
+    ∀ x ∈ (runEdits wv es).1, Whole x ∧ x.width = wv.width ∧ x.rate = wv.rate := by
+  induction es generalizing wv with
+  | nil => intro x hx; simp [runEdits] at hx
+  | cons e es ih =>
+    intro x hx
+    unfold runEdits at hx
+    cases hap : e.apply wv with
+    | error err => rw [hap] at hx; simp at hx
+    | ok w' =>
+      rw [hap] at hx
+      have h1 := edit_whole wv hwv e (he e (by simp)) w' hap
+      simp only [List.mem_cons] at hx
+      rcases hx with rfl | hx
+      · exact h1
+      · have := ih w' h1.1 (fun e' he' => by rw [h1.2.1]; exact he e' (by simp [he'])) x hx
+        exact ⟨this.1, by rw [this.2.1, h1.2.1], by rw [this.2.2, h1.2.2]⟩
+
+/-- a history stops at the first edit that raises; the only exception an edit raises is the `ArgumentError` of a
+reversed range -/
+theorem edit_error (wv : Wav) (e : Edit) (err : AErr) (h : e.apply wv = .error err) :
+    err = .ArgumentError ∧ ∃ s t, t < s ∧ ((∃ g, e = .rep s t g) ∨ e = .del s t ∨ e = .sub s t) := by
+  cases e with
+  | ins t g => cases h
+  | cat g => cases h
+  | del s t =>
+    simp only [Edit.apply, Wav.deleteSegment] at h
+    split at h
+    · cases h; exact ⟨rfl, s, t, by assumption, Or.inr (Or.inl rfl)⟩
+    · cases h
+  | rep s t g =>
+    simp only [Edit.apply, Wav.replaceSegment] at h
+    split at h
+    · cases h; exact ⟨rfl, s, t, by assumption, Or.inl ⟨g, rfl⟩⟩
+    · cases h
+  | sub s t =>
+    simp only [Edit.apply, Wav.getSubwav, Wav.getFrames] at h
+    by_cases hrev : t < s
+    · rw [if_pos hrev] at h; cases h; exact ⟨rfl, s, t, hrev, Or.inr (Or.inr rfl)⟩
+    · rw [if_neg hrev] at h; cases h
+
+/-- hence `getSamples` / `convertFromBytes` never meet a ragged byte string in a history -/
+theorem whole_convert_ok (wv : Wav) (hwv : Whole wv) (hk : knownWidth wv.width = true) :
+    convertFromBytes wv.frames wv.width = .ok wv.samples := by
+  obtain ⟨hw, k, hk'⟩ := hwv
+  unfold convertFromBytes Wav.samples
+  have : wv.frames.length % wv.width = 0 := by rw [hk']; exact Nat.mul_mod_right _ _
+  simp [hk, this]
+
+/-! ## 5. insert, then delete the same stretch -/
+
+/-- byte level: for an insertion point inside the byte string, deleting `[i, i + |g|)` after inserting
+`g` at `i` restores the byte string — no alignment needed -/
+theorem insert_delete_inverse_bytes (f g : List UInt8) (i : Int) (h0 : 0 ≤ i) (h1 : i ≤ f.length) :
+    deleteB (insertB f i g) i (i + g.length) = f := by
+  have hc : i.toNat ≤ f.length := by omega
+  have hlen : (insertB f i g).length = f.length + g.length := by
+    unfold insertB sliceTo sliceFrom
+    simp only [List.length_append, List.length_take, List.length_drop]; omega
+  unfold deleteB sliceTo sliceFrom
+  rw [hlen, pyClamp_of_range _ _ h0 (by omega), pyClamp_of_range _ _ (by omega) (by omega)]
+  unfold insertB sliceTo sliceFrom
+  rw [pyClamp_of_range _ _ h0 h1]
+  have hl1 : (f.take i.toNat).length = i.toNat := by rw [List.length_take]; omega
+  have hl2 : (f.take i.toNat ++ g).length = (i + (g.length : Int)).toNat := by
+    rw [List.length_append, hl1]; omega
+  rw [List.append_assoc, List.take_left' hl1, ← List.append_assoc, List.drop_left' hl2, List.take_append_drop]
+
+/-- beyond the end of the byte string Python's clamping breaks the byte-level inverse
+(`insert` appends, `deleteSegment` then cuts nothing of the appended bytes) — outside `[0, duration]` -/
+theorem insert_delete_bytes_beyond_end :
+    deleteB (insertB [1, 2] 5 [9]) 5 (5 + 1) = [1, 2, 9] := by decide
+
+/-- an index that needs no clamping at the end is the same index in every recording that is at least as long -/
+theorem index_stable (wv wv' : Wav) (hw : wv'.width = wv.width) (hr : wv'.rate = wv.rate)
+    (hn : wv.nsamples ≤ wv'.nsamples) (t : QTime) (ht : sampleAtTime t wv.rate ≤ wv.nsamples) :
+    wv'.index t = wv.index t := by
+  rw [index_cast, index_cast, hw]
+  have : wv'.sampleIndex t = wv.sampleIndex t := by
+    unfold Wav.sampleIndex clampSample; rw [hr]; omega
+  rw [this]
+
+theorem insert_nsamples_le (wv : Wav) (t : QTime) (g : List UInt8) : wv.nsamples ≤ (wv.insert t g).nsamples := by
+  have hlen : (wv.insert t g).frames.length = wv.frames.length + g.length := by
+    unfold Wav.insert insertB sliceTo sliceFrom
+    simp only [List.length_append, List.length_take, List.length_drop]; omega
+  unfold Wav.nsamples
+  rw [hlen]
+  exact Nat.div_le_div_right (by omega)
+
+/-- **time level**: inserting `g` at `t` and deleting from `t` to any end time whose index (in the lengthened
+recording) is `index t + |g|` restores the recording exactly — for every `t` that is not beyond the end; no
+hypothesis on the recording -/
+theorem insert_delete_inverse (wv : Wav) (t e : QTime) (g : List UInt8)
+    (ht : sampleAtTime t wv.rate ≤ wv.nsamples) (hte : ¬ e < t)
+    (h : (wv.insert t g).index e = wv.index t + g.length) :
+    (wv.insert t g).deleteSegment t e = .ok wv := by
+  have ⟨a0, a1⟩ := index_range wv t
+  have h1 : (wv.insert t g).index t = wv.index t :=
+    index_stable wv (wv.insert t g) rfl rfl (insert_nsamples_le wv t g) t ht
+  unfold Wav.deleteSegment
+  rw [if_neg hte]
+  unfold Wav.deleteSegmentRaw
+  rw [h1, h]
+  show Except.ok ({ wv with frames := deleteB (insertB wv.frames (wv.index t) g) (wv.index t) (wv.index t + g.length) } : Wav) = .ok wv
+  rw [insert_delete_inverse_bytes _ _ _ a0 a1]
+
+/-- the same with the end time written as `t + len(g)/rate/width`; the index hypothesis is explicit
+because round-half-to-even does not commute with adding an odd number of samples at a half-sample time -/
+theorem insert_delete_inverse_dur (wv : Wav) (hwv : Whole wv) (t : QTime) (ht : InDur wv t) (g : List UInt8)
+    (h : (wv.insert t g).index (t + wv.durOf g) = wv.index t + g.length) :
+    (wv.insert t g).deleteSegment t (t + wv.durOf g) = .ok wv := by
+  have hte : ¬ (t + wv.durOf g) < t := by
+    show ¬ ((t.num * ((wv.rate * wv.width : Nat) : Int) + ((g.length : Nat) : Int) * t.den) * t.den
+      < t.num * ((t.den * (wv.rate * wv.width) : Nat) : Int))
+    have h0 : (0 : Int) ≤ ((g.length : Nat) : Int) * t.den * t.den :=
+      Int.mul_nonneg (Int.mul_nonneg (by omega) (by omega)) (by omega)
+    rw [Int.natCast_mul t.den]
+    generalize ((wv.rate * wv.width : Nat) : Int) = D at *
+    have e1 : (t.num * D + ((g.length : Nat) : Int) * t.den) * t.den
+        = t.num * ((t.den : Int) * D) + ((g.length : Nat) : Int) * t.den * t.den := by grind
+    rw [e1]; omega
+  exact insert_delete_inverse wv t _ g (sampleAtTime_range wv hwv t ht).2 hte h
+
+/-- the recording of the counter-examples: 8 one-byte samples at 8 Hz -/
+def exWav : Wav := ⟨1, 8, [1, 2, 3, 4, 5, 6, 7, 8]⟩
+
+/-- **the index hypothesis can fail** (DESIGN §5 A15): rate 8, `t = 0.3125 = 2.5` samples, one sample
+inserted — `round(2.5) = 2` but `round(3.5) = 4` -/
+theorem insert_delete_index_counterexample :
+    (exWav.insert ⟨5, 16⟩ [77]).index ((⟨5, 16⟩ : QTime) + exWav.durOf [77]) = 4 ∧ exWav.index ⟨5, 16⟩ + 1 = 3 := by decide
+
+/-- … and then the original is **not** restored: two samples are deleted -/
+theorem insert_delete_time_counterexample :
+    (exWav.insert ⟨5, 16⟩ [77]).deleteSegment ⟨5, 16⟩ ((⟨5, 16⟩ : QTime) + exWav.durOf [77])
+      = .ok ⟨1, 8, [1, 2, 4, 5, 6, 7, 8]⟩ ∧
+    InDur exWav ⟨5, 16⟩ ∧ Whole exWav := by decide
+
+/-! ## 6. duration -/
+
+/-- `duration = len(frames) / frameRate / sampleWidth` -/
+theorem duration_def (wv : Wav) : wv.duration = ⟨wv.frames.length, wv.rate * wv.width⟩ := rfl
+
+/-- **duration = sample count / frame rate** (as rational values) -/
+theorem duration_samples (wv : Wav) (hwv : Whole wv) : QTime.eqv wv.duration ⟨wv.nsamples, wv.rate⟩ := by
+  obtain ⟨hw, k, hk⟩ := hwv
+  have hns : wv.nsamples = k := by unfold Wav.nsamples; rw [hk, Nat.mul_div_cancel_left _ hw]
+  unfold QTime.eqv Wav.duration
+  simp only [hns, hk, Int.natCast_mul]
+  grind
+
+/-! ## 6b. times outside the recording, and a start after the end
+
+Before the repair 300c9d2 a negative time became a negative Python slice bound (counted from the END of the
+frames: `getSamples(-0.5, 0.5)` was empty, `deleteSegment(-0.5, 0.25)` made the recording LONGER, `insert(-0.25, x)`
+landed before the last samples) and QueryWav raised `wave.Error`.  Now every time addresses the nearest sample
+boundary of the recording: `sampleIndex_nonpos`, `sampleIndex_beyond`, and the theorems of section 4 carry no
+window hypothesis.  The three theorems below are the old counter-examples, replayed on the repaired code. -/
+
+/-- the window `[-0.25 s, 1 s]` of the 1-second recording `exWav` is the whole recording, the window
+`[-0.25 s, 0.5 s]` its first four samples, a window beyond the end is empty, and the window `[0.25 s, -0.25 s]`,
+whose end lies before its start, is rejected -/
+theorem getFrames_negative_clamped :
+    exWav.getFrames ⟨-1, 4⟩ ⟨1, 1⟩ = .ok [1, 2, 3, 4, 5, 6, 7, 8] ∧ exWav.getFrames ⟨-1, 4⟩ ⟨1, 2⟩ = .ok [1, 2, 3, 4] ∧
+    exWav.getFrames ⟨1, 4⟩ ⟨-1, 4⟩ = .error .ArgumentError ∧ exWav.getFrames ⟨3, 4⟩ ⟨9, 1⟩ = .ok [7, 8] ∧
+    exWav.getFrames ⟨3, 1⟩ ⟨9, 1⟩ = .ok [] := by
+  decide
+
+/-- `deleteSegment(-0.25, 0.5)` removes the first four samples (it used to return a recording of 10 samples) -/
+theorem deleteSegment_negative_clamped :
+    exWav.deleteSegment ⟨-1, 4⟩ ⟨1, 2⟩ = .ok ⟨1, 8, [5, 6, 7, 8]⟩ ∧
+    exWav.deleteSegment ⟨1, 2⟩ ⟨9, 1⟩ = .ok ⟨1, 8, [1, 2, 3, 4]⟩ := by decide
+
+/-- `insert` at a negative time inserts at the start, beyond the end it appends -/
+theorem insert_negative_clamped :
+    (exWav.insert ⟨-1, 4⟩ [77]).frames = [77, 1, 2, 3, 4, 5, 6, 7, 8] ∧
+    (exWav.insert ⟨9, 1⟩ [77]).frames = [1, 2, 3, 4, 5, 6, 7, 8, 77] := by decide
+
+/-- **a start after the end — regression** (defect C16-3, repaired by 0a07868).  `deleteSegment(0.5, 0.25)` used to
+remove nothing and *duplicate* the samples between the two times (`frames[:4] + frames[2:]`: 8 samples before, 10
+after), `replaceSegment` likewise, `getFrames` was silently empty; all three now raise `ArgumentError` and the
+recording is untouched (the general statement: `reversed_rejected`) -/
+theorem reversed_regression :
+    exWav.deleteSegment ⟨1, 2⟩ ⟨1, 4⟩ = .error .ArgumentError ∧
+    exWav.replaceSegment ⟨1, 2⟩ ⟨1, 4⟩ [77] = .error .ArgumentError ∧
+    exWav.getFrames ⟨1, 2⟩ ⟨1, 4⟩ = .error .ArgumentError ∧ exWav.getSamples ⟨1, 2⟩ ⟨-1, 4⟩ = .error .ArgumentError ∧
+    QueryWav.getSamples ⟨1, 8, [1, 2, 3, 4, 5, 6, 7, 8]⟩ (some ⟨1, 2⟩) (some ⟨-1, 4⟩) = .error .ArgumentError ∧
+    (runEdits exWav [.del ⟨1, 4⟩ ⟨1, 2⟩, .del ⟨1, 2⟩ ⟨1, 4⟩, .cat [9]]) = ([⟨1, 8, [1, 2, 5, 6, 7, 8]⟩], some .ArgumentError) ∧
     InDur exWav ⟨1, 2⟩ ∧ InDur exWav ⟨1, 4⟩ ∧ Whole exWav := by decide
 
-/-- with an ordered pair of times nothing is ever duplicated: the result is never longer than the recording -/
-theorem deleteSegment_ordered_length (wv : Wav) (hwv : Whole wv) (s e : QTime) (hs : NonNeg s) (he : NonNeg e)
-    (hse : sampleAtTime s wv.rate ≤ sampleAtTime e wv.rate) :
-    (wv.deleteSegment s e).samples.length
-      = wv.samples.length - (min (sampleAtTime e wv.rate).toNat wv.samples.length
-          - min (sampleAtTime s wv.rate).toNat wv.samples.length) := by
-  rw [deleteSegment_samples_nonneg wv hwv s e hs he, List.length_append, List.length_take, List.length_drop]
-  have := Int.toNat_le_toNat hse
+/-- nothing is ever duplicated: a `deleteSegment` that returns removes exactly the samples between the two
+boundaries (the recording never gets longer) -/
+theorem deleteSegment_ordered_length (wv : Wav) (hwv : Whole wv) (s e : QTime) (hs : 0 < s.den) (he : 0 < e.den)
+    (h : ¬ e < s) :
+    ∃ w', wv.deleteSegment s e = .ok w' ∧
+      w'.samples.length = wv.samples.length - (wv.sampleIndex e - wv.sampleIndex s) ∧
+      wv.sampleIndex s ≤ wv.sampleIndex e := by
+  obtain ⟨w', h1, _, _, h4⟩ := deleteSegment_samples wv hwv s e h
+  have hse := sampleIndex_mono wv s e hs he ((not_lt_iff_le s e).1 h)
+  refine ⟨w', h1, ?_, hse⟩
+  rw [h4, List.length_append, List.length_take, List.length_drop, nsamples_samples]
+  have := sample_range wv s
+  have := sample_range wv e
   omega
 
 /-! ## 7. the file round trip over the abstract file -/
@@ -1033,11 +1178,13 @@ theorem read_all (f : WavFile) (hr : 0 < f.rate) :
     show roundHalfEven ((f.rate : Int) * (f.nframes : Int)) f.rate = f.nframes
     rw [Int.mul_comm]
     exact roundHalfEven_exact _ _ hr
-  simp only [e1, e2]
+  have c1 : clampSample 0 f.nframes = 0 := clampSample_nonpos _ _ (by omega)
+  have c2 : clampSample (f.nframes : Int) f.nframes = f.nframes := clampSample_beyond _ _ (by omega)
+  simp only [e1, e2, c1, c2]
   unfold WavFile.readAt
-  have hneg : ¬ ((0 : Int) < 0 ∨ (f.nframes : Int) < 0) := by omega
+  have hneg : ¬ (((0 : Nat) : Int) < 0 ∨ (f.nframes : Int) < ((0 : Nat) : Int)) := by omega
   rw [if_neg hneg]
-  have hmax : max ((f.nframes : Int) - 0) 0 = f.nframes := by omega
+  have hmax : max ((f.nframes : Int) - ((0 : Nat) : Int)) 0 = f.nframes := by omega
   rw [hmax]
   by_cases hz : f.nframes = 0
   · simp [hz]
@@ -1083,7 +1230,9 @@ theorem query_all (f : WavFile) (hr : 0 < f.rate) (hw : 0 < f.width) (hk : known
     QueryWav.getSamples f none none = .ok (unpack f.width f.data) := by
   unfold QueryWav.getSamples QueryWav.getFrames
   simp only [Option.getD_none]
-  rw [read_all f hr]
+  have hnr : ¬ f.duration < QTime.zero := by
+    show ¬ ((f.nframes : Int) * ((1 : Nat) : Int) < (0 : Int) * (f.rate : Int)); omega
+  rw [if_neg hnr, read_all f hr]
   simp only
   unfold convertFromBytes
   have hle : f.nframes * f.width ≤ f.data.length := Nat.div_mul_le_self _ _
@@ -1094,29 +1243,31 @@ theorem query_all (f : WavFile) (hr : 0 < f.rate) (hw : 0 < f.width) (hk : known
     rw [Nat.min_eq_left hle]; exact Nat.mul_mod_left _ _
   simp [hk, hl', hu]
 
-/-- **`readFramesAtTime` (QueryWav, extractSubwav) and `Wav.getFrames` return the same bytes whenever
-`setpos` accepts the start index and the end index is not negative** — stated on the *indices*, with no
-hypothesis on the times themselves (a slightly negative start that rounds to sample 0 is included).  The
-complement on the start is exactly `query_start_out_of_range` (`wave.Error`); on a negative end index the
-two classes disagree: `query_negative_end_counterexample`. -/
-theorem query_eq_wav_index (f : WavFile) (s e : QTime)
-    (ha0 : 0 ≤ sampleAtTime s f.rate) (ha1 : sampleAtTime s f.rate ≤ f.nframes)
-    (hb0 : 0 ≤ sampleAtTime e f.rate) :
-    readFramesAtTime f s e = .ok (Wav.getFrames ⟨f.width, f.rate, f.data⟩ s e) := by
-  obtain ⟨A, hA⟩ := Int.eq_ofNat_of_zero_le ha0
-  obtain ⟨B, hB⟩ := Int.eq_ofNat_of_zero_le hb0
-  have p0 : roundHalfEven ((f.rate : Int) * s.num) s.den = A := by rw [Int.mul_comm]; exact hA
-  have p1 : roundHalfEven ((f.rate : Int) * e.num) e.den = B := by rw [Int.mul_comm]; exact hB
-  have hAn : A ≤ f.nframes := by rw [hA] at ha1; omega
+/-- **`readFramesAtTime` (the reader behind QueryWav, extractSubwav) and the slice `Wav.getFramesRaw` behind `Wav.getFrames` return the same bytes for EVERY pair of
+times** — negative, beyond the end of the file, on or off the sample grid, end before start (both empty),
+ragged data chunk included — and `readFramesAtTime` never raises (`setpos` always gets a position inside the
+file).  No hypothesis.  (Since the repairs fedc16f — both round *both* ends — and 300c9d2 — both clamp the
+frame index into `[0, nframes]`; before, QueryWav raised `wave.Error` where Wav wrapped around.) -/
+theorem query_eq_wav (f : WavFile) (s e : QTime) :
+    readFramesAtTime f s e = .ok (Wav.getFramesRaw ⟨f.width, f.rate, f.data⟩ s e) := by
+  have p0 : roundHalfEven ((f.rate : Int) * s.num) s.den = sampleAtTime s f.rate := by
+    unfold sampleAtTime; rw [Int.mul_comm]
+  have p1 : roundHalfEven ((f.rate : Int) * e.num) e.den = sampleAtTime e f.rate := by
+    unfold sampleAtTime; rw [Int.mul_comm]
+  have hAn : clampSample (sampleAtTime s f.rate) f.nframes ≤ f.nframes := clampSample_le _ _
+  generalize hA : clampSample (sampleAtTime s f.rate) f.nframes = A at hAn
   have hlen : f.nframes * f.width ≤ f.data.length := Nat.div_mul_le_self _ _
   have hAw : A * f.width ≤ f.data.length := Nat.le_trans (Nat.mul_le_mul_right _ hAn) hlen
   unfold readFramesAtTime
-  simp only [p0, p1]
+  simp only [p0, p1, hA]
+  generalize hB : clampSample (sampleAtTime e f.rate) f.nframes = B
   unfold WavFile.readAt
   rw [if_neg (by omega)]
-  unfold Wav.getFrames getB slice Wav.index indexAtTime
-  simp only [hA, hB]
-  rw [← Int.natCast_mul, ← Int.natCast_mul, pyClamp_of_range _ _ (by omega) (by omega)]
+  unfold Wav.getFramesRaw getB slice Wav.index indexAtTime Wav.nsamples
+  simp only
+  have hA' : clampSample (sampleAtTime s f.rate) (f.data.length / f.width) = A := hA
+  have hB' : clampSample (sampleAtTime e f.rate) (f.data.length / f.width) = B := hB
+  rw [hA', hB', pyClamp_of_range _ _ (by omega) (by omega)]
   have hcl : pyClamp f.data.length ((B * f.width : Nat) : Int) = min (B * f.width) f.data.length := by
     unfold pyClamp; rw [if_neg (by omega), Int.toNat_natCast]
   rw [hcl]
@@ -1136,66 +1287,69 @@ theorem query_eq_wav_index (f : WavFile) (s e : QTime)
     rw [hm]
     simp [h1', h2']
 
-/-- **`readFramesAtTime` (QueryWav, extractSubwav) and `Wav.getFrames` return the same bytes for every
-window** whose start lies inside the file (`0 ≤ s ≤ duration`, otherwise `setpos` raises) and whose end
-is not negative — on or off the sample grid, end before start (both empty), end beyond the file (both
-clamp), ragged data chunk included.  (Since the repair fedc16f both round *both* ends.) -/
-theorem query_eq_wav (f : WavFile) (s e : QTime) (hds : 0 < s.den) (hde : 0 < e.den)
-    (hs0 : 0 ≤ s.num) (hs1 : s ≤ f.duration) (he0 : 0 ≤ e.num) :
-    readFramesAtTime f s e = .ok (Wav.getFrames ⟨f.width, f.rate, f.data⟩ s e) :=
-  query_eq_wav_index f s e (roundHalfEven_nonneg _ _ hds (Int.mul_nonneg hs0 (by omega)))
-    (roundHalfEven_le _ _ hds _ hs1) (roundHalfEven_nonneg _ _ hde (Int.mul_nonneg he0 (by omega)))
-
-/-- **a negative end time: QueryWav and Wav disagree.**  `readFramesAtTime` reads `max(end - start, 0) = 0`
-frames, `Wav.getFrames` slices `frames[2:-2]` (a negative bound counts from the end): on the 8-sample
-recording at 8 Hz the window `[0.25 s, -0.25 s]` is empty through QueryWav and holds samples 3..6 through
-Wav.  (Outside `[0, duration]`; the empty answer is the one the statement describes.) -/
-theorem query_negative_end_counterexample :
+/-- the old counter-examples on the repaired code: a negative end time and a start outside the file.
+The reversed window `[0.25 s, -0.25 s]` is rejected by `Wav.getFrames` and by `QueryWav.getFrames` alike (Wav used to
+return samples 3..6, QueryWav nothing; the bare `readFramesAtTime` reads nothing), the window `[-0.25 s, 0.5 s]` holds
+the first four samples in both (QueryWav used to raise `wave.Error`), a window beyond the end is empty. -/
+theorem query_outside_clamped :
     readFramesAtTime ⟨1, 8, [1, 2, 3, 4, 5, 6, 7, 8]⟩ ⟨1, 4⟩ ⟨-1, 4⟩ = .ok [] ∧
-    Wav.getFrames ⟨1, 8, [1, 2, 3, 4, 5, 6, 7, 8]⟩ ⟨1, 4⟩ ⟨-1, 4⟩ = [3, 4, 5, 6] := by decide
+    Wav.getFrames ⟨1, 8, [1, 2, 3, 4, 5, 6, 7, 8]⟩ ⟨1, 4⟩ ⟨-1, 4⟩ = .error .ArgumentError ∧
+    QueryWav.getFrames ⟨1, 8, [1, 2, 3, 4, 5, 6, 7, 8]⟩ (some ⟨1, 4⟩) (some ⟨-1, 4⟩) = .error .ArgumentError ∧
+    readFramesAtTime ⟨1, 8, [1, 2, 3, 4, 5, 6, 7, 8]⟩ ⟨-1, 4⟩ ⟨1, 2⟩ = .ok [1, 2, 3, 4] ∧
+    Wav.getFrames ⟨1, 8, [1, 2, 3, 4, 5, 6, 7, 8]⟩ ⟨-1, 4⟩ ⟨1, 2⟩ = .ok [1, 2, 3, 4] ∧
+    QueryWav.getFrames ⟨1, 8, [1, 2, 3, 4, 5, 6, 7, 8]⟩ (some ⟨-1, 4⟩) (some ⟨1, 2⟩) = .ok [1, 2, 3, 4] ∧
+    readFramesAtTime ⟨1, 8, [1, 2, 3]⟩ ⟨2, 1⟩ ⟨3, 1⟩ = .ok [] := by decide
 
-/-- hence **QueryWav.getSamples = Wav.getSamples** on the same window (same samples or the same
-`struct.error` / `KeyError`) -/
-theorem query_samples_eq_wav (f : WavFile) (s e : QTime) (hds : 0 < s.den) (hde : 0 < e.den)
-    (hs0 : 0 ≤ s.num) (hs1 : s ≤ f.duration) (he0 : 0 ≤ e.num) :
-    QueryWav.getSamples f (some s) (some e) = Wav.getSamples ⟨f.width, f.rate, f.data⟩ s e := by
-  unfold QueryWav.getSamples QueryWav.getFrames Wav.getSamples
+/-- **QueryWav.getFrames = Wav.getFrames for every pair of times**: the same bytes, or the same `ArgumentError` for a
+reversed range -/
+theorem query_frames_eq_wav (f : WavFile) (s e : QTime) :
+    QueryWav.getFrames f (some s) (some e) = Wav.getFrames ⟨f.width, f.rate, f.data⟩ s e := by
+  unfold QueryWav.getFrames Wav.getFrames
   simp only [Option.getD_some]
-  rw [query_eq_wav f s e hds hde hs0 hs1 he0]
+  by_cases h : e < s
+  · rw [if_pos h, if_pos h]
+  · rw [if_neg h, if_neg h, query_eq_wav f s e]
 
-/-- with `endTime=None` QueryWav reads from the start frame to the end of the file: nothing is dropped -/
-theorem query_to_end (f : WavFile) (hr : 0 < f.rate) (s : QTime) (hds : 0 < s.den)
-    (hs0 : 0 ≤ s.num) (hs1 : s ≤ f.duration) :
+/-- hence **QueryWav.getSamples = Wav.getSamples** on every window (same samples or the same
+`struct.error` / `KeyError`) -/
+theorem query_samples_eq_wav (f : WavFile) (s e : QTime) :
+    QueryWav.getSamples f (some s) (some e) = Wav.getSamples ⟨f.width, f.rate, f.data⟩ s e := by
+  unfold QueryWav.getSamples QueryWav.getFrames Wav.getSamples Wav.getFrames
+  simp only [Option.getD_some]
+  by_cases h : e < s
+  · rw [if_pos h, if_pos h]
+  · rw [if_neg h, if_neg h, query_eq_wav f s e]
+
+/-- **QueryWav rejects a reversed range like Wav** (`_validateTimeRange` after the `None` defaults: a start after
+the end of the file with `endTime=None` is a reversed range too) -/
+theorem query_reversed_rejected (f : WavFile) (s e : Option QTime) (h : e.getD f.duration < s.getD QTime.zero) :
+    QueryWav.getFrames f s e = .error .ArgumentError ∧ QueryWav.getSamples f s e = .error .ArgumentError := by
+  have h1 : QueryWav.getFrames f s e = .error .ArgumentError := by unfold QueryWav.getFrames; rw [if_pos h]
+  exact ⟨h1, by unfold QueryWav.getSamples; rw [h1]⟩
+
+/-- with `endTime=None` QueryWav reads from the start frame to the end of the file: nothing is dropped — for
+every start time that is not after the end of the file (that one is a reversed range: `query_reversed_rejected`) -/
+theorem query_to_end (f : WavFile) (hr : 0 < f.rate) (s : QTime) (hsd : ¬ f.duration < s) :
     QueryWav.getFrames f (some s) none
-      = .ok ((f.data.take (f.nframes * f.width)).drop ((sampleAtTime s f.rate).toNat * f.width)) := by
+      = .ok ((f.data.take (f.nframes * f.width)).drop (clampSample (sampleAtTime s f.rate) f.nframes * f.width)) := by
   have hlen : f.nframes * f.width ≤ f.data.length := Nat.div_mul_le_self _ _
   have hB : sampleAtTime f.duration f.rate = f.nframes := by
     show roundHalfEven ((f.nframes : Int) * (f.rate : Int)) f.rate = f.nframes
     exact roundHalfEven_exact _ _ hr
   unfold QueryWav.getFrames
   simp only [Option.getD_some, Option.getD_none]
-  rw [query_eq_wav f s f.duration hds hr hs0 hs1 (by show (0 : Int) ≤ (f.nframes : Int); omega)]
-  unfold Wav.getFrames getB slice Wav.index indexAtTime
+  rw [if_neg hsd, query_eq_wav f s f.duration]
+  unfold Wav.getFramesRaw getB slice Wav.index indexAtTime Wav.nsamples
   simp only [hB]
-  have ha0 : 0 ≤ sampleAtTime s f.rate := roundHalfEven_nonneg _ _ hds (Int.mul_nonneg hs0 (by omega))
-  have ha1 : sampleAtTime s f.rate ≤ f.nframes := roundHalfEven_le _ _ hds _ hs1
-  obtain ⟨A, hA⟩ := Int.eq_ofNat_of_zero_le ha0
-  have hAn : A ≤ f.nframes := by rw [hA] at ha1; omega
+  have hAn : clampSample (sampleAtTime s f.rate) f.nframes ≤ f.nframes := clampSample_le _ _
+  have c2 : clampSample (f.nframes : Int) f.nframes = f.nframes := clampSample_beyond _ _ (by omega)
+  show _ = Except.ok ((f.data.take (f.nframes * f.width)).drop (clampSample (sampleAtTime s f.rate) f.nframes * f.width))
+  have hn : f.data.length / f.width = f.nframes := rfl
+  rw [hn, c2]
+  generalize clampSample (sampleAtTime s f.rate) f.nframes = A at hAn
   have hAw : A * f.width ≤ f.nframes * f.width := Nat.mul_le_mul_right _ hAn
-  rw [hA, ← Int.natCast_mul, ← Int.natCast_mul, pyClamp_of_range _ _ (by omega) (by omega),
-    pyClamp_of_range _ _ (by omega) (by omega)]
+  rw [pyClamp_of_range _ _ (by omega) (by omega), pyClamp_of_range _ _ (by omega) (by omega)]
   simp only [Int.toNat_natCast]
-
-/-- a start beyond the end of the file is rejected by `setpos` (`wave.Error`), as is a negative one -/
-theorem query_start_out_of_range (f : WavFile) (s e : QTime)
-    (h : sampleAtTime s f.rate < 0 ∨ (f.nframes : Int) < sampleAtTime s f.rate) :
-    readFramesAtTime f s e = .error .WaveError := by
-  unfold readFramesAtTime
-  have p0 : roundHalfEven ((f.rate : Int) * s.num) s.den = sampleAtTime s f.rate := by
-    unfold sampleAtTime; rw [Int.mul_comm]
-  simp only [p0]
-  unfold WavFile.readAt
-  rw [if_pos h]
 
 /-- regression (C16-R1, fixed by fedc16f): the two windows on which the unrepaired
 `readFramesAtTime` ended one sample early -/
@@ -1241,14 +1395,15 @@ theorem convert_unknown_width (w : Nat) (hk : knownWidth w = false) (bs : List U
 
 example : Whole exWav ∧ InDur exWav ⟨3, 10⟩ ∧ InDur exWav ⟨1, 1⟩ ∧ InDur exWav ⟨0, 1⟩ := by decide
 /-- the hypotheses of `insert_delete_inverse_dur` are satisfiable (off a tie: `t = 0.3`, three samples) -/
-example : exWav.index ((⟨3, 10⟩ : QTime) + exWav.durOf [7, 8, 9]) = exWav.index ⟨3, 10⟩ + 3 := by decide
+example : (exWav.insert ⟨3, 10⟩ [7, 8, 9]).index ((⟨3, 10⟩ : QTime) + exWav.durOf [7, 8, 9]) = exWav.index ⟨3, 10⟩ + 3 := by decide
 /-- … and at a tie with an even number of samples -/
-example : exWav.index ((⟨5, 16⟩ : QTime) + exWav.durOf [7, 8]) = exWav.index ⟨5, 16⟩ + 2 := by decide
+example : (exWav.insert ⟨5, 16⟩ [7, 8]).index ((⟨5, 16⟩ : QTime) + exWav.durOf [7, 8]) = exWav.index ⟨5, 16⟩ + 2 := by decide
 example : InRange 1 (-128) ∧ InRange 1 127 ∧ ¬ InRange 1 128 ∧ InRange 2 (-32768) ∧ InRange 4 2147483647 := by decide
 example : knownWidth 1 = true ∧ knownWidth 2 = true ∧ knownWidth 4 = true ∧ knownWidth 3 = false := by decide
 
 #guard roundHalfEven 5 2 = 2 && roundHalfEven 7 2 = 4 && roundHalfEven (-5) 2 = -2 && roundHalfEven (-1) 3 = 0
-#guard indexAtTime ⟨3, 10⟩ 8 2 = 4          -- A4: was 5 with round(t*rate*width)
+#guard indexAtTime ⟨3, 10⟩ 8 2 8 = 4          -- A4: was 5 with round(t*rate*width)
+#guard indexAtTime ⟨-1, 2⟩ 8 2 8 = 0 && indexAtTime ⟨9, 1⟩ 8 2 8 = 16          -- C16-2: clamped into the recording
 #guard pack 2 [-32768, 32767, -1] = [0x00, 0x80, 0xff, 0x7f, 0xff, 0xff]
 #guard pack 1 [-128, 127, -1] = [0x80, 0x7f, 0xff]          -- width 1 is the signed code `b`
 #guard unpack 4 [0x00, 0x00, 0x00, 0x80, 0xff, 0xff, 0xff, 0x7f] = [-2147483648, 2147483647]
@@ -1256,9 +1411,10 @@ example : knownWidth 1 = true ∧ knownWidth 2 = true ∧ knownWidth 4 = true 
 #guard convertFromBytes [1, 0, 2] 2 = .error .StructError
 #guard convertToBytes [128] 1 = .error .StructError
 #guard slice [0, 1, 2, 3, 4, 5] (-2) 9 = [4, 5] && sliceTo [0, 1, 2, 3, 4, 5] (-2) = [0, 1, 2, 3]
-#guard (exWav.deleteSegment ⟨3, 10⟩ ⟨8, 10⟩).frames = [1, 2, 7, 8]
-#guard (exWav.replaceSegment ⟨3, 10⟩ ⟨8, 10⟩ [50, 51]).frames = [1, 2, 50, 51, 7, 8]
+#guard exWav.deleteSegment ⟨3, 10⟩ ⟨8, 10⟩ = .ok ⟨1, 8, [1, 2, 7, 8]⟩
+#guard exWav.replaceSegment ⟨3, 10⟩ ⟨8, 10⟩ [50, 51] = .ok ⟨1, 8, [1, 2, 50, 51, 7, 8]⟩
+#guard exWav.replaceSegment ⟨8, 10⟩ ⟨3, 10⟩ [50, 51] = .error .ArgumentError          -- C16-3
 #guard (exWav.save >>= Wav.open) = .ok exWav
 #guard (Wav.mk 2 8 [1, 2, 3, 4, 5]).save >>= Wav.open = .ok ⟨2, 8, [1, 2, 3, 4]⟩
-#guard readFramesAtTime ⟨1, 8, [1, 2, 3]⟩ ⟨2, 1⟩ ⟨3, 1⟩ = .error .WaveError
+#guard readFramesAtTime ⟨1, 8, [1, 2, 3]⟩ ⟨2, 1⟩ ⟨3, 1⟩ = .ok []
 end C16
